@@ -645,9 +645,11 @@ impl<'lexer> Lexer<'lexer> {
     // variable name is the name before the keyword `in`
     // ------------------------------------------------------------------------
     if self.till_in {
+      // the variable name ends here, also when something else than white space
+      // (a comment) separates it from the keyword `in`
+      self.till_in = false;
       // there must be a variable name before the keyword `in`
       if let Some(index) = parts.iter().position(|value| value == "in").filter(|index| *index > 0) {
-        self.till_in = false;
         parts.truncate(index);
         self.position = consumed_positions[index - 1] + 1;
         // return the name of the local variable before `in` keyword
